@@ -722,6 +722,7 @@ func runAlloc(c *Ctx) {
 			runHistory(c, p, nops, hostile, "CA6", nil)
 		}
 	}
+	runBigPools(c)
 	// constructor rejections and odd pools: only the correspondence is compared
 	for i := 0; i < c.Scale(20, 200); i++ {
 		switch r.Intn(4) {
